@@ -144,6 +144,9 @@ func (h *HistGen) Leaf() J {
 		return J{"like": []interface{}{f, hx(likePatterns[h.G.pick(len(likePatterns))])}}
 	case 3:
 		n := h.G.pick(4)
+		if h.G.pick(8) == 0 {
+			n = 14 + h.G.pick(24) // long operand lists (a list-size threshold is a natural place for a fast path)
+		}
 		xs := []interface{}{}
 		for i := 0; i < n; i++ {
 			xs = append(xs, h.operand())
@@ -151,6 +154,9 @@ func (h *HistGen) Leaf() J {
 		return J{"in": []interface{}{f, xs}}
 	case 4:
 		n := h.G.pick(3)
+		if h.G.pick(8) == 0 {
+			n = 14 + h.G.pick(24)
+		}
 		xs := []interface{}{}
 		for i := 0; i < n; i++ {
 			xs = append(xs, h.operand())
@@ -448,4 +454,98 @@ func (h *HistGen) History(cfg HistCfg) []J {
 		lines = append(lines, h.readOps(c, cfg.QueriesPer)...)
 	}
 	return lines
+}
+
+// ---- name variation: a generated history re-spelled with other collection / field names ----
+//
+// Every name travels hex-encoded, so a history can be renamed consistently after generation.  Two families a
+// key-building or buffer-reusing change is sensitive to, neither of which the fixed name pools reach:
+//   - separator families: collections "u" and "u<sep>m" with fields "m<sep>a" and "a" (any concatenation of a
+//     collection name, a separator and a field name that is not injective makes them collide);
+//   - long names (300-1100 bytes: allocator size classes, buffer thresholds).
+//
+// varyNames returns the renamed copy and a short label for the evidence.
+func varyNames(g *Gen, lines []J, colls []string) ([]J, string) {
+	ren := map[string]string{}
+	label := ""
+	switch g.pick(3) {
+	case 0:
+		sep := []string{":", "/", "-", "_", "|", ",", " ", "::"}[g.pick(8)]
+		if len(colls) > 0 {
+			ren[colls[0]] = "u"
+		}
+		if len(colls) > 1 {
+			ren[colls[1]] = "u" + sep + "m"
+		}
+		if len(colls) > 2 {
+			ren[colls[2]] = "u" + sep + "m" + sep + "a"
+		}
+		ren["x"] = "a"
+		ren["xy"] = "m" + sep + "a"
+		ren["y"] = "m"
+		label = "names:separator-family"
+	case 1:
+		n := []int{300, 508, 520, 660, 900, 1100}[g.pick(6)] + g.pick(9)
+		if len(colls) > 0 {
+			ren[colls[g.pick(len(colls))]] = strings.Repeat("L", n) + "q"
+		}
+		label = "names:long-collection"
+	default:
+		n := []int{20, 33, 64, 120, 300}[g.pick(5)] + g.pick(7)
+		ren[[]string{"x", "xy", "y"}[g.pick(3)]] = strings.Repeat("f", n)
+		if len(colls) > 0 {
+			ren[colls[0]] = strings.Repeat("c", 1+g.pick(40))
+		}
+		label = "names:long-field"
+	}
+	hren := map[string]string{}
+	for a, b := range ren {
+		hren[hx(a)] = hx(b)
+		hren[hx("$"+a)] = hx("$" + b)
+	}
+	out := make([]J, len(lines))
+	for i, ln := range lines {
+		out[i] = renameTree(ln, hren).(J)
+	}
+	return out, label
+}
+
+func renameTree(v interface{}, hren map[string]string) interface{} {
+	switch x := v.(type) {
+	case string:
+		if to, ok := hren[x]; ok {
+			return to
+		}
+		return x
+	case J:
+		o := J{}
+		for k, e := range x {
+			switch k {
+			case "i", "u", "f", "t", "k", "op", "b":
+				o[k] = e // numbers, times, protocol words
+			default:
+				o[k] = renameTree(e, hren)
+			}
+		}
+		return o
+	case []interface{}:
+		o := make([]interface{}, len(x))
+		for i, e := range x {
+			o[i] = renameTree(e, hren) // (document pairs need no re-sorting: both sides insert them key by key)
+		}
+		return o
+	case []string:
+		o := make([]interface{}, len(x))
+		for i, e := range x {
+			o[i] = renameTree(e, hren)
+		}
+		return o
+	case []J:
+		o := make([]interface{}, len(x))
+		for i, e := range x {
+			o[i] = renameTree(e, hren)
+		}
+		return o
+	}
+	return v
 }
